@@ -1265,7 +1265,7 @@ def extra(ctx):
                         f["case"] = case
                         f["case_kind"] = "roundtrip-exhaustive"
                         fails.append(f)
-    ctx.notes["exhaustive"] = True
+    ctx.notes["exhaustive"] = not ctx.quick   # the sub-space named in exhaustive_scope; the other cases are sampled
     ctx.notes["extra_evaluations"] = n
     ctx.notes["extra_nontrivial"] = n
     ctx.notes["exhaustive_scope"] = "style product sorted x want_origin x deduplicate_names x omit_rdclass x want_generic x want_comments x default_ttl{None,300} x (origin,relativize){(None,F),(o,T),(o,F)} x zone relativized/absolute on a fixed 8-name zone (quick: the even-parity half)"
